@@ -78,6 +78,16 @@ class Setup:
             self.eng.assume(z3.ForAll([i], z3.Select(d.lens, i) >= 0))
         return d
 
+    def dframe(self, cols, n=None, name="df"):
+        """cols: dict name -> kind"""
+        from .npmodels import DFrame
+
+        if n is None:
+            n = fresh("int", name + "_n")
+            self.eng.assume(n.z >= 0)
+        nz = n.z if isinstance(n, Sym) else n
+        return DFrame({c: SArr.fresh(k, nz, name=f"{name}_{c}") for c, k in cols.items()}, nz)
+
     def obj(self, cls, **fields):
         return Obj(cls, fields)
 
@@ -99,8 +109,10 @@ class Verifier(Interp):
         self.spec_extra = {}
         self.entry_uids = set()
         self.cover = {}
+        self.covers = []
         self.exits = 0
         self.call_log = []
+        self.variant = ""
 
     def old_vars_of(self, fr):
         return self.top_old
@@ -130,6 +142,10 @@ class Verifier(Interp):
             lab, text = split_label(cl, f"pre{j}")
             v = eval_clause(self, text, vars, func.globs, extra=self.spec_extra)
             self.prove(f"{caller}/call:{callee}/pre/{lab}", v, "precondition")
+        if c.key == self.cur_key and "measure" in c.options:
+            m_new = c.options["measure"](self, vars)
+            m_old = c.options["measure"](self, self.top_old)
+            self.prove(f"{caller}/recursion/measure-decreases", z3.And(to_z3(m_new, "int") >= 0, to_z3(m_new, "int") < to_z3(m_old, "int")), "termination")
         old = snapshot(vars)
         self.call_log.append((c.short, dict(vars)))
         for m in c.modifies:
@@ -150,7 +166,7 @@ class Verifier(Interp):
         vars["result"] = res
         for j, cl in enumerate(c.ensures):
             lab, text = split_label(cl, f"post{j}")
-            if "ncalls(" in text or "callarg(" in text:
+            if isinstance(text, str) and ("ncalls(" in text or "callarg(" in text):
                 continue  # effect clause about the callee's own execution: not usable at a call site
             v = eval_clause(self, text, vars, func.globs, old_vars=old, extra=self.spec_extra)
             self.assume(v)
@@ -202,8 +218,11 @@ class Verifier(Interp):
                 lab, text = split_label(cl, f"pre{j}")
                 self.assume(eval_clause(self, text, vars, globs, extra=self.spec_extra))
             # reachability cover behind the preconditions
-            if "pre" not in self.cover:
-                self.cover["pre"] = self.feasible(z3.BoolVal(True))
+            if ("pre", self.variant) not in self.cover:
+                self.cover[("pre", self.variant)] = True
+                from .engine import Oblig
+
+                self.covers.append(Oblig(f"{self.prop}/{fn_label}/cover/precondition-reachable", list(self.pc), z3.BoolVal(False), "cover", self.variant))
             self.top_old = snapshot(vars)
             self.entry_uids = _collect_uids(vars)
             if c.lemmas:
@@ -233,6 +252,8 @@ class Verifier(Interp):
             for k0 in params:
                 post_vars.setdefault(k0, params[k0])
             post_vars["result"] = res
+            if c.ghost_exit is not None:
+                c.ghost_exit(self, post_vars, self.top_old)
             for j, cl in enumerate(c.ensures):
                 lab, text = split_label(cl, f"post{j}")
                 v = eval_clause(self, text, post_vars, globs, old_vars=self.top_old, extra=self.spec_extra)
@@ -249,7 +270,7 @@ class Verifier(Interp):
         self.paths = npaths
         stats["paths"] = self.paths
         stats["exits"] = self.exits
-        return dict(key=c.key, sha256=sha, stats=stats, cover=dict(self.cover))
+        return dict(key=c.key, sha256=sha, stats=stats, cover={"pre": True, "post": bool(self.cover.get("post"))})
 
     def bind_named(self, func, params, fr):
         a = func.node.args
@@ -322,15 +343,18 @@ def _exc_class(name):
 
 
 # ------------------------------------------------------------------ driver
-def discharge_all(obligs, timeout_ms, workers=16):
+def discharge_all(obligs, timeout_ms, workers=16, cover_timeout_ms=3000):
     """Group obligation instances by name; an obligation is discharged iff every
     instance is unsat.  Returns {name: result}."""
     jobs = []
     trivial = {}
     for ob in obligs:
         g = z3.simplify(ob.goal)
-        if z3.is_true(g):
+        if z3.is_true(g) and ob.kind != "cover":
             trivial.setdefault(ob.name, []).append(dict(name=ob.name, verdict="unsat", backend="simplify", seconds=0.0, model=None, reason="", kind=ob.kind, note=ob.note))
+            continue
+        if ob.kind == "cover":
+            jobs.append(((ob.name, smt.to_smt2(ob.hyps, ob.goal), -cover_timeout_ms), ob))
             continue
         jobs.append(((ob.name, smt.to_smt2(ob.hyps, ob.goal), timeout_ms), ob))
     results = {}
